@@ -122,7 +122,7 @@ func c32isHexP(b string) bool {
 		return false
 	}
 	e := c32splitSign(b[i+1:])
-	return c32allDigits(e) && len(e) <= 7
+	return c32allDigits(e) && len(e) <= 9
 }
 
 func c32floatLitAbstains(s string) bool {
@@ -615,16 +615,20 @@ func c32rt(arg string) Result {
 		return Result{Out: "bad-op"}
 	}
 	m := untyped.Marshal(k, v)
-	if c32abstains(m) {
-		return Result{Out: c32esc(m) + " => abstain", Tags: append(tags, "rt-abstain"),
-			Viol: "Marshal produced a literal outside the modelled grammar: " + c32esc(m), Key: "marshal-outside-grammar"}
-	}
 	k2, v2, out, pan := c32unmarshal(m)
 	r := Result{Out: c32esc(m) + " => " + out, Tags: tags, Nontrivial: true}
 	if key := c32compare(k, v, k2, v2, pan); key != "" {
 		r.Viol = fmt.Sprintf("Marshal(%s, %s) = %q; Unmarshal gives %s", c32kindName(k), c32short(c32valStr(v)), c32short(m), c32short(out))
 		r.Key = key
 		r.Tags = append(r.Tags, "viol-"+key)
+	}
+	if c32abstains(m) {
+		// Marshal must stay inside the literal grammar the model transcribes (and proves the round trip for)
+		r.Out = c32esc(m) + " => abstain"
+		r.Tags = append(r.Tags, "rt-abstain")
+		if r.Viol == "" {
+			r.Viol, r.Key = "Marshal produced a literal outside the modelled grammar: "+c32esc(c32short(m)), "marshal-outside-grammar"
+		}
 	}
 	if v != nil && v2 != nil {
 		if _, ok := constant.Val(v2).(*big.Float); ok {
@@ -739,6 +743,9 @@ func c32randFlt(r *rand.Rand, small bool) string {
 			e = r.Intn(200000) - 100000
 		default:
 			e = r.Intn(2000000) - 1000000
+			if r.Intn(4) == 0 {
+				e = r.Intn(1999990000) - 999995000
+			}
 		}
 		return fmt.Sprintf("g:%s:%d", m, e)
 	}
@@ -847,7 +854,7 @@ func c32edges(emit func(string)) {
 		emit("rt c " + c)
 	}
 	fl := []string{"r:1:3", "r:-1:3", "r:22:7", "r:1:10", "r:-3:2", "r:0:1", "i:0", "g:0:0", "g:1:0", "g:3:-1", "g:-3:-1", "g:1:4095", "g:1:4096", "g:1:-4096", "g:1:-4097",
-		"g:1:5000", "g:-1:5000", "g:3:-5000", "g:5:16610", "g:7:-16610", "g:1:100000", "g:1:-100000", "g:9:1000000", "g:-11:-1000000", "g:1:4094", "g:255:4088", "g:15:4091", "g:15:4092",
+		"g:1:5000", "g:-1:5000", "g:3:-5000", "g:5:16610", "g:7:-16610", "g:1:100000", "g:1:-100000", "g:9:1000000", "g:-11:-1000000", "g:1:9999999", "g:1:10000000", "g:-5:99999999", "g:3:-100000000", "g:7:999999000", "g:7:-999999000", "g:1:4094", "g:255:4088", "g:15:4091", "g:15:4092",
 		"g:" + new(big.Int).Sub(c32pow2(512), big.NewInt(1)).String() + ":4000", "g:" + new(big.Int).Sub(c32pow2(512), big.NewInt(1)).String() + ":-5000",
 		"g:" + new(big.Int).Sub(c32pow2(511), big.NewInt(1)).String() + ":3584", "g:" + new(big.Int).Add(c32pow2(511), big.NewInt(1)).String() + ":3583",
 		"r:1:" + c32pow2(1074).String(), "r:1:" + c32pow2(149).String(), "r:1:" + c32pow2(4094).String(), "r:1:" + c32pow2(4095).String(), c32ratSpec(c32pow2(4000), c32pow2(4600), false),
